@@ -8,3 +8,13 @@ from xsdata.utils.namespaces import build_qname, split_qname
 
 def qname_roundtrip(uri, tag):
     return split_qname(build_qname(uri, tag))
+
+
+from xsdata.formats.converter import QNameConverter
+
+
+def resolve_under_prefix_renaming(w1, p, p2, l, w2, m, m2):
+    """The expanded name does not depend on which prefix is bound to the namespace."""
+    a = QNameConverter.resolve(w1 + p + ":" + l + w2, m)
+    b = QNameConverter.resolve(w1 + p2 + ":" + l + w2, m2)
+    return a, b
